@@ -235,6 +235,15 @@ def main(argv):
             'functions_in_crate': len(f0.fns) if f0 else 0,
             'functions_analysed': sorted(rep.analysed_fns),
             'extraction': facts_info,
+            # what the fact pipeline did to the MIR before any rule ran (vlib/combinators.py, inline.py, thread.py): all purely
+            # structural, recomputed on every run from the current tree
+            'fact_pipeline': ({
+                'combinator_and_try_sites_expanded': sum(f0.expanded.values()),
+                'bool_selects': sum(f0.bool_selects.values()),
+                'bool_diamonds_threaded': sum(f0.bool_diamonds.values()),
+                'helpers_and_closures_inlined_away': sorted(f0.inlined_helpers)[:40],
+                'functions_with_threaded_decisions': {k_: v_ for k_, v_ in sorted(f0.threaded.items())},
+            } if f0 is not None and hasattr(f0, 'threaded') else {}),
             'floors_violated': floors_bad,
             'fail_closed': fail_closed,
             'exhaustive': False,
